@@ -26,4 +26,8 @@ EvalChecked(G, order, cols, all) ==
           IF \E j \in DOMAIN ops : ops[j] \notin DOMAIN acc.v THEN [acc EXCEPT !.ok = FALSE]
           ELSE [acc EXCEPT !.v = (l :> GateSet(G[l].t, [j \in DOMAIN ops |-> acc.v[ops[j]]], all)) @@ acc.v],
    [ok |-> TRUE, v |-> cols], order)
+(* everything S depends on, along a witness order (operands first): linear *)
+ReachAlong(G, order, S) ==
+  FoldLeft(LAMBDA seen, j : LET l == order[Len(order) + 1 - j] IN IF l \in seen THEN seen \cup SeqSet(G[l].o) ELSE seen,
+           S, [j \in 1 .. Len(order) |-> j])
 =============================================================================
